@@ -64,7 +64,12 @@ pub trait CodecLaws: BinarySerializer + BinaryDeserializer {
         ensures
             self.tbl_after(t).len() >= t.len(),
     ;
+}
 
+/// C08: every strict prefix of an encoding is rejected.  (Separate from CodecLaws because the
+/// nested proof for tuples of arity 6-8 is not stable under solver seeds; for those arities the
+/// truncation law is NOT claimed.)
+pub trait TruncLaw: CodecLaws {
     /// every strict prefix of an encoding is rejected
     proof fn truncated(&self, t: Tbl, k: int)
         requires
@@ -85,6 +90,10 @@ impl CodecLaws for bool {
         let s = self.enc(t) + suffix;
         assert(s[0] == self.enc(t)[0]);
     }
+}
+
+//@lemma C08
+impl TruncLaw for bool {
     proof fn truncated(&self, t: Tbl, k: int) {
     }
 }
@@ -94,6 +103,10 @@ impl CodecLaws for () {
     proof fn tbl_mono(&self, t: Tbl) {  }
     proof fn roundtrip(&self, t: Tbl, suffix: Seq<u8>) {
     }
+}
+
+//@lemma C08
+impl TruncLaw for () {
     proof fn truncated(&self, t: Tbl, k: int) {
     }
 }
@@ -114,6 +127,10 @@ impl<T: CodecLaws> CodecLaws for Option<T> {
             },
         }
     }
+}
+
+//@lemma C08
+impl<T: TruncLaw> TruncLaw for Option<T> {
     proof fn truncated(&self, t: Tbl, k: int) {
         match self {
             Some(v) => {
@@ -146,6 +163,10 @@ impl<R: CodecLaws, E: CodecLaws> CodecLaws for core::result::Result<R, E> {
             },
         }
     }
+}
+
+//@lemma C08
+impl<R: TruncLaw, E: TruncLaw> TruncLaw for core::result::Result<R, E> {
     proof fn truncated(&self, t: Tbl, k: int) {
         match self {
             Ok(v) => {
@@ -170,6 +191,10 @@ impl<R: CodecLaws, E: CodecLaws> CodecLaws for core::result::Result<R, E> {
 impl<T: CodecLaws> CodecLaws for Box<T> {
     proof fn tbl_mono(&self, t: Tbl) { (**self).tbl_mono(t); }
     proof fn roundtrip(&self, t: Tbl, suffix: Seq<u8>) { (**self).roundtrip(t, suffix); }
+}
+
+//@lemma C08
+impl<T: TruncLaw> TruncLaw for Box<T> {
     proof fn truncated(&self, t: Tbl, k: int) { (**self).truncated(t, k); }
 }
 
@@ -177,6 +202,10 @@ impl<T: CodecLaws> CodecLaws for Box<T> {
 impl<T: CodecLaws> CodecLaws for Rc<T> {
     proof fn tbl_mono(&self, t: Tbl) { (**self).tbl_mono(t); }
     proof fn roundtrip(&self, t: Tbl, suffix: Seq<u8>) { (**self).roundtrip(t, suffix); }
+}
+
+//@lemma C08
+impl<T: TruncLaw> TruncLaw for Rc<T> {
     proof fn truncated(&self, t: Tbl, k: int) { (**self).truncated(t, k); }
 }
 
@@ -184,6 +213,10 @@ impl<T: CodecLaws> CodecLaws for Rc<T> {
 impl<T: CodecLaws> CodecLaws for Arc<T> {
     proof fn tbl_mono(&self, t: Tbl) { (**self).tbl_mono(t); }
     proof fn roundtrip(&self, t: Tbl, suffix: Seq<u8>) { (**self).roundtrip(t, suffix); }
+}
+
+//@lemma C08
+impl<T: TruncLaw> TruncLaw for Arc<T> {
     proof fn truncated(&self, t: Tbl, k: int) { (**self).truncated(t, k); }
 }
 
@@ -191,6 +224,10 @@ impl<T: CodecLaws> CodecLaws for Arc<T> {
 impl<T> CodecLaws for PhantomData<T> {
     proof fn tbl_mono(&self, t: Tbl) {  }
     proof fn roundtrip(&self, t: Tbl, suffix: Seq<u8>) { }
+}
+
+//@lemma C08
+impl<T> TruncLaw for PhantomData<T> {
     proof fn truncated(&self, t: Tbl, k: int) { }
 }
 
@@ -204,6 +241,10 @@ impl CodecLaws for char {
         lemma_be_roundtrip(2, v);
         assert((self.enc(t) + suffix).take(2) =~= be(2, v));
     }
+}
+
+//@lemma C08
+impl TruncLaw for char {
     proof fn truncated(&self, t: Tbl, k: int) {
         lemma_be_len(2, (*self as u32) as nat);
     }
@@ -254,6 +295,10 @@ impl CodecLaws for String {
     proof fn roundtrip(&self, t: Tbl, suffix: Seq<u8>) {
         lemma_dec_str_roundtrip(self@, suffix);
     }
+}
+
+//@lemma C08
+impl TruncLaw for String {
     proof fn truncated(&self, t: Tbl, k: int) {
         lemma_dec_str_truncated(self@, k);
     }
@@ -277,6 +322,10 @@ impl CodecLaws for DeduplicatedString {
             assert(enc_str(s) + suffix =~= var_i32(len as int) + (utf8(s) + suffix));
         }
     }
+}
+
+//@lemma C08
+impl TruncLaw for DeduplicatedString {
     proof fn truncated(&self, t: Tbl, k: int) {
         let s = self.0@;
         if tbl_has(t, s) {
@@ -317,6 +366,10 @@ impl CodecLaws for Bytes {
         let u = unleb_used(all);
         assert(all.subrange(u as int, (u + b.len()) as int) =~= b);
     }
+}
+
+//@lemma C08
+impl TruncLaw for Bytes {
     proof fn truncated(&self, t: Tbl, k: int) {
         let b = self@;
         let hd = leb(b.len());
